@@ -268,7 +268,7 @@ func gap(a, b bbox) float64 {
 }
 
 func secPack(r *vlib.Run) {
-	r.Section("pack", r.N(800, 3000), vlib.SectionOpts{}, func(c *vlib.Case) {
+	r.Section("pack", r.N(800, 3000), vlib.SectionOpts{}, replayable(r, func(c *vlib.Case) {
 		rng := c.Rng
 		k := 1 + rng.Intn(12)
 		if rng.Intn(5) == 0 {
@@ -417,14 +417,14 @@ func secPack(r *vlib.Run) {
 		c.Nontrivial(desc + fmt.Sprint(descs))
 		c.Sample("pack", 2, map[string]interface{}{"call": desc})
 		checkMapFn(c, rng, packed, false, 30, 20, desc)
-	})
+	}))
 }
 
 // ---------------------------------------------------------------------------
 // BuildAutomaticUVMap
 
 func secAtlas(r *vlib.Run) {
-	r.Section("atlas", r.N(350, 1200), vlib.SectionOpts{}, func(c *vlib.Case) {
+	r.Section("atlas", r.N(350, 1200), vlib.SectionOpts{}, replayable(r, func(c *vlib.Case) {
 		rng := c.Rng
 		var s *surface
 		for try := 0; try < 4 && s == nil; try++ {
@@ -582,5 +582,5 @@ func secAtlas(r *vlib.Run) {
 		c.Nontrivial(s.desc + "|" + desc)
 		c.Sample("atlas", 3, map[string]interface{}{"input": s.desc, "topology": s.cert.Describe(), "call": desc, "charts": len(boxes)})
 		checkMapFn(c, rng, uvm, false, 60, 20, desc+" of "+s.desc)
-	})
+	}))
 }
